@@ -146,14 +146,21 @@ where
         }
         let ast = ast_validation.ast();
         // Check that StorageT is big enough to hold RIdx/PIdx/SIdx/TIdx values; after these
-        // checks we can guarantee that things like RIdx(ast.rules.len().as_()) are safe.
-        if ast.rules.len() > num_traits::cast(StorageT::max_value()).unwrap() {
+        // checks we can guarantee that things like RIdx(rule_names.len().as_()) are safe. Note
+        // that we add to the AST's rules, tokens and productions: a start rule with one
+        // production and the EOF token; for Eco grammars with implicit tokens also two further
+        // rules, with one production per implicit token plus two more.
+        let (extra_rules, extra_prods) = match (ast_validation.yacc_kind(), &ast.implicit_tokens) {
+            (YaccKind::Eco, Some(implicit_tokens)) => (3, implicit_tokens.len() + 3),
+            _ => (1, 1),
+        };
+        if ast.rules.len() + extra_rules > num_traits::cast(StorageT::max_value()).unwrap() {
             panic!("StorageT is not big enough to store this grammar's rules.");
         }
-        if ast.tokens.len() > num_traits::cast(StorageT::max_value()).unwrap() {
+        if ast.tokens.len() + 1 > num_traits::cast(StorageT::max_value()).unwrap() {
             panic!("StorageT is not big enough to store this grammar's tokens.");
         }
-        if ast.prods.len() > num_traits::cast(StorageT::max_value()).unwrap() {
+        if ast.prods.len() + extra_prods > num_traits::cast(StorageT::max_value()).unwrap() {
             panic!("StorageT is not big enough to store this grammar's productions.");
         }
         for p in &ast.prods {
